@@ -105,6 +105,36 @@ def rand_value(rng, depth=0):
     return rng.choice(STRS)
 
 
+WORDS = ["verification", "description", "complete", "refresh", "expires", "access", "client", "device", "active", "token", "error", "scope", "user",
+         "name", "type", "code", "uri", "url", "id", "in", "interval"]
+SYNONYMS = {"username": ["user_name", "login", "user", "preferred_username", "uid"], "client_id": ["cid", "azp", "client", "clientID"],
+            "exp": ["expires", "expires_at", "expiry", "expiration", "exp_at"], "iat": ["issued_at", "issued"], "nbf": ["not_before"],
+            "sub": ["subject", "user_id"], "aud": ["audience", "audiences"], "iss": ["issuer"], "jti": ["token_id", "id"],
+            "scope": ["scopes", "scp", "scope_list"], "active": ["valid", "is_active", "enabled"], "token_type": ["type", "tokentype", "typ"],
+            "access_token": ["token", "id_token", "accessToken"], "refresh_token": ["refresh"], "expires_in": ["expires", "expiry", "ttl", "expires_at", "ext_expires_in"],
+            "interval": ["poll_interval", "polling_interval", "retry_after"], "verification_uri": ["verification_url", "verify_uri"],
+            "verification_uri_complete": ["verification_url_complete"], "device_code": ["code"], "user_code": ["code", "pin"],
+            "error_description": ["description", "message", "error_message", "msg", "error_msg"], "error_uri": ["error_url", "documentation_url", "uri"],
+            "error": ["err", "code", "error_code", "errors", "status"]}
+
+
+def segment(name):
+    """split a member name into dictionary words (username -> user, name)"""
+    parts = []
+    for chunk in name.split("_"):
+        rest = chunk
+        while rest:
+            for w in WORDS:
+                if rest.startswith(w):
+                    parts.append(w)
+                    rest = rest[len(w):]
+                    break
+            else:
+                parts.append(rest)
+                rest = ""
+    return parts
+
+
 def near_miss_names(known):
     """unknown member names that look like known ones: plausible legacy aliases (uri<->url), other
     letter case, camelCase, '-' for '_', plural/singular, prefix/suffix"""
@@ -113,6 +143,9 @@ def near_miss_names(known):
         cands = [k.replace("uri", "url"), k.replace("url", "uri"), k.upper(), k.capitalize(), k.replace("_", "-"), k.replace("_", ""),
                  "".join(w.capitalize() if i else w for i, w in enumerate(k.split("_"))), k + "s", k[:-1], "x_" + k, k + "_", k.replace("_in", ""),
                  k.replace("token", "tokens"), k.replace("expires", "expire")]
+        w = segment(k)
+        cands += ["_".join(w), "-".join(w), "".join(w), ".".join(w), w[0] + "".join(x.capitalize() for x in w[1:]), "".join(x.capitalize() for x in w)]
+        cands += SYNONYMS.get(k, [])
         out += [c for c in cands if c and c not in known]
     return list(dict.fromkeys(out))
 
@@ -280,6 +313,27 @@ def gen_decode(fam, tier, rng, n_docs=None):
         if i % (8 if tier == "quick" else 20) == 0:
             for label, cm in corruptions(m, known, rng):
                 out.append((decode_line(dfam, ext, render(obj(cm), rng, plain=True)), label.split(":")[0]))
+    # alias sweep: every plausible alias of every known member, once next to the real member and once instead of it
+    # (only for members whose absence is legal), with a string and with a non-string value
+    efam = fam if not fam.startswith("err-") else "error"
+    _, known = family_doc(efam, rng, False)
+    bm = {"token": [("access_token", "at"), ("token_type", "bearer"), ("expires_in", 3600), ("refresh_token", "rt"), ("scope", "a b")],
+          "introspection": [("active", True), ("scope", "a b"), ("client_id", "c"), ("username", "u"), ("token_type", "bearer"), ("exp", 1700000000),
+                            ("iat", 1600000000), ("nbf", 1600000001), ("sub", "s"), ("aud", ["x"]), ("iss", "i"), ("jti", "j")],
+          "device": [("device_code", "dc"), ("user_code", "uc"), ("verification_uri", URLS_VALID[0]), ("verification_uri_complete", URLS_VALID[0]),
+                     ("expires_in", 600), ("interval", 7)],
+          "error": [("error", "invalid_grant"), ("error_description", "d"), ("error_uri", "u")]}[efam]
+    assert set(k for k, _ in bm) <= set(known)
+    required = {"token": ["access_token", "token_type"], "introspection": ["active"],
+                "device": ["device_code", "user_code", "verification_uri", "expires_in"], "error": ["error"]}[efam]
+    names = near_miss_names(known)
+    if tier == "quick":
+        names = [x for i, x in enumerate(names) if i % 3 == 0 or "_" in x or x in sum(SYNONYMS.values(), [])]
+    for alias in names:
+        for val in ("alias-value", 7):
+            out.append((decode_line(dfam, False, render(obj(bm + [(alias, val)]), rng, plain=True)), "alias-beside"))
+            reduced = [(k, v) for k, v in bm if k in required]
+            out.append((decode_line(dfam, False, render(obj(reduced + [(alias, val)]), rng, plain=True)), "alias-instead"))
     # malformed / exotic text
     base_m, known = family_doc(fam if not fam.startswith("err-") else "error", rng, False)
     base = render(obj(base_m), rng, plain=True)
